@@ -534,6 +534,11 @@ fn make_sample<T: OffsetSizeTrait>(in_buf: &[u8], offsets: &[T]) -> (Vec<u8>, Ve
     if total_size <= FSST_SAMPLETARGET {
         return (in_buf.to_vec(), offsets.to_vec());
     }
+    // nothing to sample from: no string has any byte (no strings at all, or only empty strings, over a large
+    // values buffer). The loop below would take a remainder by zero / never reach the sample target.
+    if offsets.windows(2).all(|w| w[0] == w[1]) {
+        return (in_buf.to_vec(), offsets.to_vec());
+    }
     let mut sample_buf = Vec::with_capacity(FSST_SAMPLEMAXSZ);
     let mut sample_offsets: Vec<T> = Vec::new();
 
